@@ -41,7 +41,7 @@ def fresh_copy(hc):
 
 def gen_query(rng, good):
     from diffcalc.hkl.geometry import Position
-    k = rng.choices(["gp-good", "gp-zero", "gp-far", "gp-other", "hkl", "va", "edit-pos", "str"], weights=[30, 8, 8, 14, 12, 12, 10, 6])[0]
+    k = rng.choices(["gp-good", "gp-zero", "gp-far", "gp-other", "gp-along", "hkl", "va", "edit-pos", "str"], weights=[30, 8, 8, 14, 10, 12, 12, 10, 6])[0]
     return k
 
 
@@ -61,7 +61,14 @@ def run_history(ctx, tr, length):
         return [], 0, set()
     ub2, vals, hkl, P = r
     ub2.add_reflection((1, 0, 0), Position(1, 2, 3, 4, 5, 6), 12.0, "r1"); ub2.add_orientation((0, 1, 0), (0, 1, 0), None, "o1")
+    if rng.random() < 0.4:
+        # the caller hands the reference / surface vectors over as float ndarrays (and keeps no other copy)
+        with quiet():
+            ub2.n_phi = np.array(rng.choice([(0.0, 0.0, 1.0), (1.0, 0.0, 0.0), (0.0, 0.6, 0.8)]))
+            ub2.surf_nphi = np.array(rng.choice([(0.0, 0.0, 1.0), (0.0, 1.0, 0.0)]))
     hc = HklCalculation(ub2, Constraints(vals))
+    along_ref = tuple(float(x) for x in np.linalg.solve(np.asarray(ub2.UB, float), PL.vectors(ub2)[0]) * rng.choice([2.0, 3.0]))
+    along_surf = tuple(float(x) for x in np.linalg.solve(np.asarray(ub2.UB, float), PL.vectors(ub2)[1]) * rng.choice([2.0, 3.0]))
     shared_pos = Position(*[rng.uniform(-170, 170) for _ in range(6)])
     first_answers = {}
     kinds = set()
@@ -77,6 +84,10 @@ def run_history(ctx, tr, length):
             key = ("gp", (0.0, 0.0, 0.0)); thunk = lambda h=hc: S.run_impl("full", h, (0.0, 0.0, 0.0), 1.0)
         elif k == "gp-far":
             key = ("gp", (9.0, 9.0, 9.0)); thunk = lambda h=hc: S.run_impl("full", h, (9.0, 9.0, 9.0), 1.0)
+        elif k == "gp-along":
+            # scattering vector parallel to the reference (or surface) vector: the solver substitutes another reference direction
+            h2 = rng.choice([along_ref, along_surf])
+            key = ("gp", h2); thunk = lambda h=hc, h2=h2: S.run_impl("full", h, h2, 1.0)
         elif k == "gp-other":
             h2 = tuple(round(x * rng.choice([0.5, 1.1, 0.9]), 6) for x in hkl)
             key = ("gp", h2); thunk = lambda h=hc, h2=h2: S.run_impl("full", h, h2, 1.0)
@@ -119,7 +130,10 @@ def run_history(ctx, tr, length):
         except Exception as e:  # noqa
             ref = ("EXC:" + type(e).__name__,)
         ref_c = canon(ref) if ref[0] in ("ok", "dce") or len(ref) == 2 and ref[0] not in ("ok-v",) else ref
-        if k != "str" and ans != ref_c:
+        # (a scattering vector exactly along the reference vector is a numerical singularity of the solver: the rebuilt calculator differs from the
+        #  original in the last bit of the degree/radian conversions, which is enough to change the substituted reference direction; such queries are
+        #  compared with their own repetitions and by the state snapshot only)
+        if k not in ("str", "gp-along") and ans != ref_c:
             complaints.append(f"query #{step} ({k}, {key[0]}) answered differently from a freshly built calculator in the same state "
                               f"(after {step} earlier queries): {str(ans)[:140]} vs {str(ref_c)[:140]}")
             break
